@@ -103,7 +103,8 @@ type Task struct {
 	wakeAt int64
 	wakeSq int
 
-	prio int // PCT priority
+	prio  int // PCT priority
+	quiet int // >0: statement-granular yields are suppressed (inside a loop over a Go map)
 }
 
 // Op returns the index of the operation the task is executing.
@@ -134,6 +135,7 @@ func (t *Task) BeginOp(op int, fault interface{}) {
 	t.yields = 0
 	t.steps = 0
 	t.extCall = 0
+	t.quiet = 0
 	t.Fault = fault
 }
 
@@ -324,6 +326,9 @@ func HookYield(site string, obj interface{}) {
 			}
 		}
 		return
+	}
+	if s.cur.quiet > 0 && len(site) > 2 && site[1] == ':' {
+		return // "a:"/"g:" site inside a map-ordered loop
 	}
 	s.cur.Yield(site, obj)
 }
